@@ -3838,7 +3838,11 @@ impl XmlUnexpandedEntityReference {
     }
 
     pub fn value(&self) -> error::Result<String> {
-        expand_entity(self.name(), self.context(), &mut vec![], false)
+        // White space of the replacement text is normalized only inside an attribute value.
+        let in_attribute = self
+            .parent_item()
+            .is_some_and(|v| v.as_attribute().is_some());
+        expand_entity(self.name(), self.context(), &mut vec![], in_attribute)
     }
 }
 
@@ -4475,7 +4479,8 @@ fn expand_entity(
                 // Not support parameter entity reference.
                 return Err(error::Error::InvalidData(format!("%{};", v)));
             }
-            XmlEntityValue::Text(v) => parsed.push_str(normalize_ws(v).as_str()),
+            XmlEntityValue::Text(v) if in_attribute => parsed.push_str(normalize_ws(v).as_str()),
+            XmlEntityValue::Text(v) => parsed.push_str(v),
         }
     }
     parents.pop();
